@@ -4,7 +4,7 @@
   quantifies over all interleavings of main-thread, worker and environment transitions, including spurious wake-ups and
   expiry of the timed wait). Proofs are in Lemmas/MtDec*.lean.
 -/
-import XzVerif.Lemmas.MtDecFinal
+import XzVerif.Lemmas.MtDecAlloc2
 
 namespace XzVerif.C07
 open XzVerif.MtDec
@@ -84,6 +84,90 @@ theorem mtdec_flag_never_leaks (cfg : Cfg) (blocks : List Block) (hwf : WFInput 
     ∃ o ∈ s.queue, o.finished = true ∧ o.finishRet ≠ END :=
   let e := (GInv2.reachable hwf hr).err hx
   e.e1 (e.e2 hp)
+
+/-- **thr->in is never freed while the main thread may still write it** (the CVE-2025-31115 shape). Under every schedule,
+    whenever the main thread copies at least one input byte into the buffer of the worker it is feeding, that buffer is
+    allocated: a worker frees its input buffer only after a successful verdict, which needs the complete input, or when
+    threads_end has told it to exit, and then the main thread is not copying. -/
+theorem mtdec_in_not_freed (cfg : Cfg) (blocks : List Block) (hwf : WFInput blocks) (s s' : State)
+    (hr : Reachable cfg blocks s) (k : Nat) (n : Bool) (hk : 0 < k) (hs : step s (.copyIn k n) = some s') :
+    ∃ t, s.thr = some t ∧ (getW s t).inAlloc = true :=
+  in_allocated_when_written hwf hr k n hk hs
+
+/-- No worker is exiting (THR_EXIT seen or set) unless threads_end is running; so a worker structure is only torn down
+    after the main thread has decided to join it. -/
+theorem mtdec_end_only_in_threads_end (cfg : Cfg) (blocks : List Block) (hwf : WFInput blocks) (s : State)
+    (hr : Reachable cfg blocks s) (hx : exitCode s = none) (i : Nat) (hi : i < s.workers.length)
+    (he : (getW s i).st = .exit ∨ (getW s i).pc = .cleanup ∨ (getW s i).pc = .exited) : isEnding s.pc :=
+  (AllocInv.reachable hwf hr hx).noExit ⟨i, hi, he⟩
+
+/-- **No lost wake-up.** Under every schedule: a worker that sits in cond_wait(thr->cond) without a pending signal is idle,
+    or is running with all its input consumed and no freshly requested partial update; the main thread sitting in
+    cond_wait(coder->cond) without a pending signal has a non-empty queue whose head offers nothing to read and is unfinished,
+    the last worker is not stalled, and (if it asked) the next Block still cannot start. Hence every transition that makes one
+    of these wait conditions false has signalled the matching condition variable — inside the critical section of the mutex the
+    waiter re-checks under, since a transition of the model is such a critical section. -/
+theorem mtdec_no_lost_wakeup (cfg : Cfg) (blocks : List Block) (hwf : WFInput blocks) (s : State)
+    (hr : Reachable cfg blocks s) :
+    (∀ i, i < s.workers.length → (getW s i).pc = .wait → (getW s i).woken = false →
+        (getW s i).st = .idle ∨ ((getW s i).st = .run ∧ (getW s i).inFilled = (getW s i).inPos ∧ (getW s i).pu ≠ .start)) ∧
+    (∀ k w, s.pc = .rowWait k w → s.mwoken = false → MainIdle s k) := by
+  have h := WakeInv.reachable hwf hr
+  refine ⟨?_, h.main⟩
+  intro i hi hp hw
+  rcases h.wk i hi hp with e | e | e
+  · rw [hw] at e; cases e
+  · exact Or.inl e
+  · exact Or.inr e
+
+/-- Every thread is blocked: the main thread waits un-signalled in read_output_and_wait and every worker waits un-signalled or
+    has exited. -/
+def AllBlocked (s : State) : Prop :=
+  (∃ k w, s.pc = .rowWait k w ∧ s.mwoken = false) ∧
+  ∀ i, i < s.workers.length → ((getW s i).pc = .wait ∧ (getW s i).woken = false) ∨ (getW s i).pc = .exited
+
+/-- **Deadlock freedom (full statement, not proved).** No reachable state has every thread blocked. What is missing for the
+    proof: (1) the invariant that every unfinished outbuf in the queue has an owning worker, (2) that the head's owner has its
+    partial update enabled and has published everything it decoded, (3) a progress assumption on the Block decoder (the model
+    lets `wDecode` return LZMA_OK at the verdict position indefinitely). With these, `mtdec_no_deadlock_partial` closes the
+    argument: the head's owner either is the last worker, and then the main thread would be `stalled`, or has all its input. -/
+def mtdec_no_deadlock_statement : Prop :=
+  ∀ (cfg : Cfg) (blocks : List Block), WFInput blocks → ∀ s, Reachable cfg blocks s → ¬ AllBlocked s
+
+/-- What is proved about blocked states: if every thread is blocked then the queue is non-empty, its head is unfinished and
+    completely read out, the last worker (if it has partial updates on) has unconsumed input published, the next Block (if
+    asked for) cannot start, and every waiting worker is idle or has consumed all the input it was given with no partial-update
+    request pending. In particular a signal can be missing for none of them (that is `mtdec_no_lost_wakeup`). -/
+theorem mtdec_no_deadlock_partial (cfg : Cfg) (blocks : List Block) (hwf : WFInput blocks) (s : State)
+    (hr : Reachable cfg blocks s) (hb : AllBlocked s) :
+    (∃ k, MainIdle s k) ∧
+    ∀ i, i < s.workers.length → (getW s i).pc = .exited ∨ (getW s i).st = .idle ∨
+      ((getW s i).st = .run ∧ (getW s i).inFilled = (getW s i).inPos ∧ (getW s i).pu ≠ .start) := by
+  obtain ⟨⟨k, w, hp, hm⟩, hws⟩ := hb
+  have h := mtdec_no_lost_wakeup cfg blocks hwf s hr
+  refine ⟨⟨k, h.2 k w hp hm⟩, ?_⟩
+  intro i hi
+  rcases hws i hi with ⟨h1, h2⟩ | h1
+  · exact Or.inr (h.1 i hi h1 h2)
+  · exact Or.inl h1
+
+/-- Early lzma_end is safe: the model reaches `ended` only after every worker has been joined, i.e. has exited, and from an
+    exited worker no transition is enabled (nothing touches the freed structures). -/
+theorem mtdec_end_safe (s s' : State) (hs : step s .endJoin = some s') (hp : s'.pc = .ended) :
+    ∀ i, i < s.workers.length → ∃ j, s.pc = .endJoin j .final ∧ s.workers.length ≤ j := by
+  intro i _
+  simp only [step] at hs
+  split at hs
+  case h_2 => cases hs
+  rename_i j k hpc
+  split at hs
+  · split at hs
+    · cases hs; cases hp
+    · cases hs
+  · rename_i hlen
+    cases k
+    · cases hs; cases hp
+    · exact ⟨j, hpc, Nat.le_of_not_lt hlen⟩
 
 -- ---------------------------------------------------------------------------------------------
 -- non-vacuity: the hypotheses are satisfiable and multi-Block states with several workers in flight are reachable
